@@ -256,7 +256,7 @@ theorem step_cntEq {s s' : State} {op : Op} (hi : Inv s) (hc : CntEq s) (hb : no
     have h3 : Inv3 (unbind s name) := ⟨hi.keys, hi.cntGe, hi.queueComplete⟩
     exact foldl_purgeAcct_cntEq name _ _ h3 hc
   | beginBlock t =>
-    rw [begin_ok h]
+    obtain ⟨l, _, rfl⟩ := begin_fold h
     exact foldl_expireOne_cntEq _ _ ⟨hi.keys, hi.cntGe, hi.bound, hi.queueComplete⟩ hc
 
 theorem run_cntEq (ops : List Op) :
